@@ -37,8 +37,15 @@ Definition Fops : ops float :=
         PrimFloat.ltb.
 
 Definition tol8 : float := PrimFloat.mul tol9 (f_ofZ 10).
+(* every component within 1e-9 of the size of the vector (scale-free: radii 1e-7 and 1e39 are compared alike; the
+   null vector must be met exactly) *)
+Definition fmax (a b : float) : float := if PrimFloat.ltb a b then b else a.
 Definition vclose (a b : vec float) : bool :=
-  fclose tol9 (vx a) (vx b) && fclose tol9 (vy a) (vy b) && fclose tol9 (vz a) (vz b).
+  let s := fmax (PrimFloat.abs (vx b)) (fmax (PrimFloat.abs (vy b)) (PrimFloat.abs (vz b))) in
+  let t := PrimFloat.mul tol9 s in
+  PrimFloat.leb (PrimFloat.abs (PrimFloat.sub (vx a) (vx b))) t
+  && PrimFloat.leb (PrimFloat.abs (PrimFloat.sub (vy a) (vy b))) t
+  && PrimFloat.leb (PrimFloat.abs (PrimFloat.sub (vz a) (vz b))) t.
 Fixpoint all2 {A B} (p : A -> B -> bool) (a : list A) (b : list B) : bool :=
   match a, b with
   | [], [] => true
